@@ -163,7 +163,7 @@ def optDate : Option Int → Bound
   | Option.none => .none
 
 /-- lines 1665-1684: the three spellings of the bound lists, brought to increasing order -/
-def normalise (dfs : List TS) (lb ub : Option (List Int)) : Res (List TS × List (Option Int) × List (Option Int)) :=
+def normalise {α} (dfs : List α) (lb ub : Option (List Int)) : Res (List α × List (Option Int) × List (Option Int)) :=
   match lb, ub with
   | some lb, Option.none =>                                    -- 1666-1670
       let (lb, dfs) := if nonDecreasing lb then (lb, dfs) else (lb.reverse, dfs.reverse)
